@@ -26,6 +26,8 @@ type Job struct {
 	Announce  bool           `json:"announce,omitempty"` // print a start line per run (crash attribution)
 	Trace     bool           `json:"trace,omitempty"`
 	SpillPath string         `json:"spill_path,omitempty"`
+	// Procs is the GOMAXPROCS of the worker process (0 = default); not part of the job itself
+	Procs int `json:"-"`
 }
 
 // Found is a violation with everything needed to replay it.
